@@ -367,6 +367,18 @@ pub fn wrap_optimal_fit<'a, 'b, T: Fragment>(
         cost
     });
 
+    #[cfg(feature = "verif-hooks")]
+    for (j, (arg, cost)) in minima.iter().enumerate().skip(1) {
+        crate::verif::emit(
+            "optimal_fit.column",
+            &[
+                crate::verif::n(j),
+                crate::verif::n(*arg),
+                crate::verif::f(*cost),
+            ],
+        );
+    }
+
     for (_, cost) in &minima {
         if cost.is_infinite() {
             return Err(OverflowError);
@@ -377,6 +389,11 @@ pub fn wrap_optimal_fit<'a, 'b, T: Fragment>(
     let mut pos = fragments.len();
     loop {
         let prev = minima[pos].0;
+        #[cfg(feature = "verif-hooks")]
+        crate::verif::emit(
+            "optimal_fit.back",
+            &[crate::verif::n(prev), crate::verif::n(pos)],
+        );
         lines.push(&fragments[prev..pos]);
         pos = prev;
         if pos == 0 {
